@@ -2,15 +2,15 @@
 # confirm a seeded change: suite passes with it, demo fails with it, demo passes without it.
 # usage: confirm_seeded.sh <seeded dir> ; uses one scratch worktree /tmp/seedconfirm (incremental build)
 set -u
-D=$(realpath "$1"); WT=/tmp/seedconfirm
+D=$(realpath "$1"); WT=${SEEDCONFIRM_WT:-/tmp/seedconfirm}
 if [ ! -d $WT ]; then git -C /repo worktree add -q --detach $WT HEAD || exit 2; fi
 cd $WT && git checkout -q -- . && git clean -fdq -e _build && git checkout -q --detach $(git -C /repo rev-parse HEAD)
 ( cmake -G Ninja -S $WT -B $WT/_build -DGOOGLE_TEST=ON >/dev/null && cmake --build $WT/_build >/dev/null ) || { echo "clean build failed"; exit 2; }
-run_demo() { if [ -f $D/build_and_run.sh ]; then ( cd $D && timeout 600 bash ./build_and_run.sh $WT >/tmp/seedconfirm.demo.log 2>&1 ); else return 99; fi; }
+run_demo() { if [ -f $D/build_and_run.sh ]; then ( cd $D && timeout 600 bash ./build_and_run.sh $WT >$WT.demo.log 2>&1 ); else return 99; fi; }
 run_demo; clean_rc=$?
 git apply $D/patch.diff || { echo "patch does not apply"; exit 2; }
-cmake --build $WT/_build >/tmp/seedconfirm.build.log 2>&1; b=$?
-suite="n/a"; if [ $b -eq 0 ]; then ctest --test-dir $WT/_build -j8 --timeout 900 >/tmp/seedconfirm.ctest.log 2>&1; suite=$?; fi
+cmake --build $WT/_build >$WT.build.log 2>&1; b=$?
+suite="n/a"; if [ $b -eq 0 ]; then ctest --test-dir $WT/_build -j8 --timeout 900 >$WT.ctest.log 2>&1; suite=$?; fi
 run_demo; mut_rc=$?
 git checkout -q -- .
 echo "{\"build_with_change\": $b, \"suite_with_change\": \"$suite\", \"demo_clean_rc\": $clean_rc, \"demo_with_change_rc\": $mut_rc}" | tee $D/confirm.json
